@@ -26,7 +26,7 @@ AutoCorrelationTransitionMatrix::AutoCorrelationTransitionMatrix(std::shared_ptr
 
   for (size_t i = 0; i < size; ++i)
   {
-    eqFreq_[i] = p;
+    eqFreq_[i] = 1. / static_cast<double>(size);
   }
 }
 
@@ -77,6 +77,18 @@ void AutoCorrelationTransitionMatrix::fireParameterChanged(const ParameterList& 
   for (size_t i = 0; i < salph; i++)
   {
     vAutocorrel_[i] = getParameterValue("lambda" + TextTools::toString(i + 1));
+  }
+
+  // Stationary distribution of this matrix: proportional to 1 / (1 - lambda_i).
+  double sum = 0;
+  for (size_t i = 0; i < salph; i++)
+  {
+    eqFreq_[i] = 1. / (1. - vAutocorrel_[i]);
+    sum += eqFreq_[i];
+  }
+  for (size_t i = 0; i < salph; i++)
+  {
+    eqFreq_[i] /= sum;
   }
 
   upToDate_ = false;
